@@ -3,6 +3,7 @@ package main
 import (
 	"errors"
 	"fmt"
+	"os"
 	"regexp"
 	"strconv"
 	"strings"
@@ -37,7 +38,41 @@ type c04op struct {
 	kind  string   // cmd cmds cfgs cfg acq int
 	arg   string   // cmd: the command; cfg: the config text; acq: the target
 	lines []string // cmds / cfgs / int
-	priv  string   // cfgs / cfg / int: opoptions.WithPrivilegeLevel ("" = not given)
+	priv  string   // cfgs / cfgf / cfg / int: opoptions.WithPrivilegeLevel ("" = not given)
+	// other operation options (of the generic driver / the channel) passed in the same call, and the
+	// index at which WithPrivilegeLevel stands among them (0..len(extra))
+	extra []string
+	pos   int
+}
+
+var c04extraKinds = []string{"stop", "tmo", "nostrip", "fwc", "exact"}
+
+// c04options builds the option list of one call: the other options in order, with
+// WithPrivilegeLevel(priv) inserted at index pos when a level is requested.
+func c04options(op c04op, timeout time.Duration) []util.Option {
+	var opts []util.Option
+	for _, k := range op.extra {
+		switch k {
+		case "stop":
+			opts = append(opts, opoptions.WithStopOnFailed())
+		case "tmo":
+			opts = append(opts, opoptions.WithTimeoutOps(timeout))
+		case "nostrip":
+			opts = append(opts, opoptions.WithNoStripPrompt())
+		case "fwc":
+			opts = append(opts, opoptions.WithFailedWhenContains([]string{"% Invalid input"}))
+		case "exact":
+			opts = append(opts, opoptions.WithExactMatchInput())
+		}
+	}
+	if op.priv != "" {
+		p := op.pos
+		if p > len(opts) {
+			p = len(opts)
+		}
+		opts = append(opts[:p:p], append([]util.Option{opoptions.WithPrivilegeLevel(op.priv)}, opts[p:]...)...)
+	}
+	return opts
 }
 
 type c04case struct {
@@ -541,6 +576,67 @@ func c04faultCases(seed uint64, maxN, maxOps, cap int) []c04case {
 	return out
 }
 
+// c04explicit: the explicit-target dimension. On a sibling-prompt tree (typ 0) or a random tree
+// (typ 1): SendConfigs / SendConfig / SendConfigsFromFile / SendInteractive with
+// WithPrivilegeLevel(t) for EVERY level t of the tree (sibling configuration levels included, and
+// one unknown level), together with 0-3 other operation options (WithStopOnFailed, WithTimeoutOps,
+// WithNoStripPrompt, WithFailedWhenContains, WithExactMatchInput) and the level option at every
+// index among them: the 10 layouts (n others, position 0..n) rotate over the operations, `off`
+// shifts the rotation so that 10 sessions give every (target, kind) every layout. Commands at the
+// default level in between.
+func c04explicit(seed uint64, typ, off int) c04case {
+	var cs c04case
+	if typ == 0 {
+		cs = c04sibling(seed, 2+int(seed%2), 0)
+	} else {
+		cs = c04random(seed, 6, 1, "rand")
+	}
+	cs.ops = nil
+	cs.kind = "explicit"
+	cs.line = fmt.Sprintf("c04case explicit %d %d %d", seed, typ, off)
+	r := vlib.NewRng(seed ^ 0xe8911c17)
+	type layout struct{ n, pos int }
+	var layouts []layout
+	for n := 0; n <= 3; n++ {
+		for p := 0; p <= n; p++ {
+			layouts = append(layouts, layout{n, p})
+		}
+	}
+	targets := []string{}
+	for _, l := range cs.levels {
+		targets = append(targets, l.name)
+	}
+	targets = append(targets, "nosuch-level")
+	cnt := off
+	for _, t := range targets {
+		for _, kind := range []string{"cfgs", "cfg", "cfgf", "int"} {
+			ly := layouts[cnt%len(layouts)]
+			op := c04op{kind: kind, priv: t, pos: ly.pos}
+			for j := 0; j < ly.n; j++ {
+				op.extra = append(op.extra, c04extraKinds[(cnt+j*2+int(seed%5))%len(c04extraKinds)])
+			}
+			switch kind {
+			case "cfg":
+				op.arg = r.Pick(c04payload)
+			default:
+				op.lines = []string{r.Pick(c04payload)}
+				if r.Chance(1, 2) {
+					op.lines = append(op.lines, r.Pick(c04payload))
+				}
+			}
+			cs.ops = append(cs.ops, op)
+			cnt++
+			if cnt%3 == 0 {
+				cs.ops = append(cs.ops, c04op{kind: "cmd", arg: r.Pick(c04payload)})
+			}
+		}
+	}
+	// other options but no level option: the operation falls back to the level of its kind
+	cs.ops = append(cs.ops, c04op{kind: "cfgs", lines: []string{r.Pick(c04payload)}, extra: []string{"stop", "tmo"}},
+		c04op{kind: "int", lines: []string{r.Pick(c04payload)}, extra: []string{"nostrip"}})
+	return cs
+}
+
 func c04min(a, b int) int {
 	if a < b {
 		return a
@@ -622,12 +718,18 @@ func runC04case(cs c04case) (o c04obs) {
 	}
 	timeouts := 0
 	for _, op := range cs.ops {
-		var opts []util.Option
-		if op.priv != "" {
-			opts = append(opts, opoptions.WithPrivilegeLevel(op.priv))
-		}
+		opts := c04options(op, timeout)
 		var err error
 		switch op.kind {
+		case "cfgf":
+			var fn string
+			if tf, e := os.CreateTemp("", "c04cfg-*"); e == nil {
+				tf.WriteString(strings.Join(op.lines, "\n") + "\n")
+				tf.Close()
+				fn = tf.Name()
+			}
+			_, err = d.SendConfigsFromFile(fn, opts...)
+			os.Remove(fn)
 		case "cmd":
 			_, err = d.SendCommand(op.arg)
 		case "cmds":
@@ -716,7 +818,7 @@ func c04opLevel(cs c04case, op c04op) string {
 	switch op.kind {
 	case "cmd", "cmds":
 		return cs.def
-	case "cfgs", "cfg":
+	case "cfgs", "cfg", "cfgf":
 		if op.priv == "" {
 			if cs.kind == "ios" {
 				return "configuration" // the name every shipped platform definition uses
@@ -798,7 +900,7 @@ ops:
 			sp.log = append(sp.log, sim.LineEvent{Mode: lvl, Line: l})
 		}
 		e := "nil"
-		if len(lines) == 0 && (op.kind == "cmds" || op.kind == "cfgs" || op.kind == "cfg") {
+		if len(lines) == 0 && (op.kind == "cmds" || op.kind == "cfgs" || op.kind == "cfg" || op.kind == "cfgf") {
 			e = "noop"
 		}
 		sp.errs = append(sp.errs, e)
@@ -906,6 +1008,27 @@ func c04list(ls []string) string {
 	return strings.Join(hs, "+")
 }
 
+// c04privField: the level field of an operation in the line protocol: plain hex when the level
+// option is the only option (or absent), else the option list as network.NewOperation sees it
+// (`i` = an option of another layer, `l<hex>` = WithPrivilegeLevel), in call order.
+func c04privField(op c04op) string {
+	if len(op.extra) == 0 {
+		return c04hexS(op.priv)
+	}
+	var ts []string
+	for range op.extra {
+		ts = append(ts, "i")
+	}
+	if op.priv != "" {
+		p := op.pos
+		if p > len(ts) {
+			p = len(ts)
+		}
+		ts = append(ts[:p:p], append([]string{"l" + c04hexS(op.priv)}, ts[p:]...)...)
+	}
+	return strings.Join(ts, "/")
+}
+
 func c04opsField(ops []c04op) string {
 	if len(ops) == 0 {
 		return "."
@@ -913,18 +1036,20 @@ func c04opsField(ops []c04op) string {
 	var fs []string
 	for _, op := range ops {
 		switch op.kind {
+		case "cfgf":
+			fs = append(fs, "cfgs:"+c04list(op.lines)+":"+c04privField(op))
 		case "cmd":
 			fs = append(fs, "cmd:"+c04hexS(op.arg))
 		case "cmds":
 			fs = append(fs, "cmds:"+c04list(op.lines))
 		case "cfgs":
-			fs = append(fs, "cfgs:"+c04list(op.lines)+":"+c04hexS(op.priv))
+			fs = append(fs, "cfgs:"+c04list(op.lines)+":"+c04privField(op))
 		case "cfg":
-			fs = append(fs, "cfg:"+c04hexS(op.arg)+":"+c04hexS(op.priv))
+			fs = append(fs, "cfg:"+c04hexS(op.arg)+":"+c04privField(op))
 		case "acq":
 			fs = append(fs, "acq:"+c04hexS(op.arg))
 		case "int":
-			fs = append(fs, "int:"+c04list(op.lines)+":"+c04hexS(op.priv))
+			fs = append(fs, "int:"+c04list(op.lines)+":"+c04privField(op))
 		}
 	}
 	return strings.Join(fs, ",")
@@ -987,6 +1112,7 @@ func runC04(c *ctx) {
 		"every rooted labelled tree with <=4 (thorough <=5) levels x a tour covering all (current,target) pairs x {plain, authenticated edges with and without password request, shared commands} " +
 		"x segmentation classes; random trees to 9 levels with random operation sequences (<=12 ops, unknown levels included); the IOS-like tree with the real overlapping patterns; " +
 		"sibling levels sharing one prompt (2-3 children of one parent, optional authenticated edge) with >=20 hops between the siblings per session; " +
+		"explicit targets: SendConfig(s)/SendConfigsFromFile/SendInteractive with WithPrivilegeLevel(t) for every level t, with 0-3 other operation options and the level option at every position among them; " +
 		"out-of-quantifier streams (payload = transition command, ambiguous interior levels / ambiguous start) compared for information. non-trivial = in-domain session with at least one acquisition of >=1 hop; distinct by case line"
 	if c.replay != "" {
 		cs, ok := c04replay(c.replay)
@@ -1038,6 +1164,12 @@ func runC04(c *ctx) {
 	for i := c.n(40, 400); i > 0; i-- {
 		cases = append(cases, c04faultCases(c.rng.U64(), 6, 5, 8)...)
 	}
+	for i := c.n(8, 60); i > 0; i-- {
+		sd := c.rng.U64()
+		for off := 0; off < 10; off++ {
+			cases = append(cases, c04explicit(sd, i%2, off))
+		}
+	}
 	c04check(c, cases)
 }
 
@@ -1062,6 +1194,9 @@ func c04replay(line string) (c04case, bool) {
 		}
 		if f[1] == "fault" {
 			return c04case{}, false // needs the step index: six fields
+		}
+		if f[1] == "explicit" {
+			return c04explicit(seed, atoi(f[3])%2, atoi(f[4])), true
 		}
 		if f[1] == "sibling" {
 			if k := atoi(f[3]); k < 2 || k > 3 {
